@@ -4,7 +4,7 @@
   file.run <ioref|memfile|bio> <mode-hex> <init: N | hex> <op>…
       → `ok <out>@<tell>;… | <final-hex>`   (`.` for an empty trace)   or `err <Class>`
   file.dev <mode-hex> <init> <op>…   → `ok <class|->;…`  deviation class of each call (IoRef run)
-  file.copy <chunk-int> <data-hex> <k,k,…|->   → `ok <written-hex> | L<chunk>,<chunk>…`
+  file.copy <chunk: N|int> <data-hex> <k,k,…|->   → `ok <written-hex> | L<chunk>,<chunk>…`
   mode.flags <mode-hex>  → `ok validate=<b> validate_bin=<b> flags=<6 bits> bin=<hex> py=<6 bits|none>`
 
   op tokens: read:<N|int> readall readline:<N|int> readlines readinto:<k> write:<hex>
@@ -91,12 +91,8 @@ def bioRun : Bio → List Op → List (Out × Option Nat) × Bytes
 
 def devStr : Option Dev → String
   | none => "-"
-  | some .useAfterClose => "use_after_close"
-  | some .seekClamp => "seek_negative_clamped"
-  | some .truncatePastEof => "truncate_none_past_eof"
-  | some .iteration => "iteration"
+  | some .readlineZero => "readline_zero"
   | some .writelinesEmptyRO => "writelines_empty_readonly"
-  | some .readlineZeroNoRead => "readline_zero_unreadable"
   | some .appendEmptyWrite => "append_empty_write"
 
 def devRun (fl : Flags) : IoState → List Op → List String
@@ -133,10 +129,10 @@ def handle (cmd : String) (args : List String) : Option String :=
         | .err e => some ("err " ++ e.name)
         | .ok s => some ("ok " ++ ";".intercalate (devRun (Mode.flags mode) s ops))
   | "file.copy" => do
-      let chunk ← (← args[0]?).toInt?
+      let chunk ← parseSize (← args[0]?)
       let data ← hexToBytes (← args[1]?)
       let sr ← parseNatList (← args[2]?)
-      let chunks := copyChunks chunk (data.length + 1) ⟨data, sr⟩
+      let chunks := copyChunks (effChunk chunk) (data.length + 1) ⟨data, sr⟩
       some ("ok " ++ bytesToHex (copyFileData chunk data sr) ++ " | L" ++
             ",".intercalate (chunks.map bytesToHex))
   | "mode.flags" => do
